@@ -368,6 +368,11 @@ def gen_records(r, k, nmax=40, maxlen=120, container=None):
 
 def pick_threads(r): return r.pick([0, 1, 2, 3, 4, 7, 8, 16, 1 + r.below(16)])
 
+def many_records(r, n, lo=1, hi=12):
+    """hundreds to thousands of short, pairwise different records: a writer that formats or flushes in blocks,
+    or derives a row position from completion order, shows only on batches larger than its block size"""
+    return [bytes(r.choices(NUC, k=lo + r.below(hi - lo + 1))) for _ in range(n)]
+
 def gen_C05(r, tier):
     n = {"quick": 260, "thorough": 4000}[tier]
     cases = []
@@ -386,6 +391,10 @@ def gen_C05(r, tier):
         other = r.pick([c for c in CONTAINERS if not (c.startswith("fq") and any(len(x) == 0 for x in recs))])
         w2 = r.pick(["auto", "batch"] + (["mmap"] if norm else []))
         cases.append(base % (pick_threads(r), r.pick([1, 50, 100, 1000, 4294967296]), w2, other))
+    for nrec in ([300, 700, 1500, 1100] if tier == "quick" else [300, 700, 1500, 3000, 5000, 2000, 1100, 900]):
+        recs = many_records(r, nrec)
+        for writer, norm in (("mmap", 1), ("batch", r.below(2))):
+            cases.append("ofile 1 %d %d 2c %d %d %s fa 60 %s" % (norm, r.below(2), r.pick([2, 3, 8, 16]), r.pick([4294967296, 2000]), writer, hxlist(recs)))
     # controlled schedules on the mapped writer
     m = {"quick": 200, "thorough": 0}[tier]
     for _ in range(m):
@@ -465,6 +474,9 @@ def gen_C08_files(r, n):
         if r.below(4) == 0: recs = recs + [b""] * (1 + r.below(2))      # trailing records without bases (D5)
         delim = r.pick([b",", b"\t", b" "])
         cases.append("cov %d %d %d %d %s %d %d %s %s %s" % (k, bs, bc, r.below(2), hx(delim), pick_threads(r), r.below(2), cont, hxlist(recs), hxlist(alt)))
+    for nrec in ([300, 1500] if n <= 400 else [300, 700, 1500, 3000]):
+        recs = many_records(r, nrec)
+        cases.append("cov 2 2 3 %d 20 %d 0 fa %s %s" % (r.below(2), r.pick([2, 3, 8, 16]), hxlist(recs), hxlist(recs[:50])))
     return cases
 
 
@@ -484,6 +496,11 @@ def gen_C10(r, tier):
         t = pick_threads(r)
         cases.append("s2m %d %d %d %s %s" % (w, m, t, cont, hxlist(recs)))
         cases.append("m2s %d %d %d %s %s" % (w, m, pick_threads(r), cont, hxlist(recs)))
+    for nrec in ([400, 1500] if n <= 400 else [400, 1500, 4000]):
+        recs = many_records(r, nrec, 3, 14)
+        t = r.pick([2, 8, 16])
+        cases.append("s2m 0 3 %d fa %s" % (t, hxlist(recs)))
+        cases.append("m2s 0 3 %d fa %s" % (t, hxlist(recs)))
     return cases
 
 def extra_C10(cases, impl):
@@ -516,6 +533,8 @@ def gen_C11_files(r, n):
         if r.below(5) == 0 and recs:
             i = r.below(len(recs)); recs[i] = recs[i] + bytes([r.pick(FILE_AMBIG)])
         cases.append("cgrfile %d %d %d %s %s" % (S, pick_threads(r), r.pick([1, 50, 1000, 4294967296]), cont, hxlist(recs)))
+    for nrec in ([300, 700, 1500] if n <= 400 else [300, 700, 1500, 3000, 5000, 2000]):
+        cases.append("cgrfile 16 %d %d fa %s" % (r.pick([2, 3, 8, 16]), r.pick([4294967296, 4294967296, 2000]), hxlist(many_records(r, nrec, 0, 8))))
     return cases
 
 def to_spec_cgrfile(case, out):
@@ -537,6 +556,8 @@ def gen_C12_files(r, n):
         cont = r.pick(["fa", "faw", "fq", "fagz"])
         recs = gen_records(r, k, nmax=20, maxlen=80, container=cont)
         cases.append("ocgrfile %d %d %d %d %d %s %s" % (k, S, r.below(2), pick_threads(r), r.pick([1, 50, 1000, 4294967296]), cont, hxlist(recs)))
+    for nrec in ([300, 700, 1500] if n <= 400 else [300, 700, 1500, 3000, 5000, 2000]):
+        cases.append("ocgrfile 1 4 %d %d %d fa %s" % (r.below(2), r.pick([2, 3, 8, 16]), r.pick([4294967296, 4294967296, 2000]), hxlist(many_records(r, nrec))))
     return cases
 
 
